@@ -515,7 +515,49 @@ def run_cli(cmd, text, timeout_s):
             pass
 
 
-def discharge(ob, timeout_ms=10000, rounds=2, sum_frame=True):
+def refine_model(assertions, univ, model, small=(), timeout_ms=10000, max_rounds=10, deadline_s=30):
+    """Model-based refinement of a counter-model candidate.  The ground query only contains the instances our triggers
+    selected, so its model may violate a quantified hypothesis at an index nobody mentioned (a knot vector that is not
+    sorted between the cells the proof looked at, a row of the wrong length...).  Evaluate every integer-quantified
+    hypothesis in the model on all small index tuples, add the violated instances and re-solve, with the list lengths in
+    `small` bounded so that the enumeration is exhaustive for the model at hand.  Returns a model in which every
+    integer-quantified hypothesis holds on the enumerated range, or None (nothing is ever concluded from a failure:
+    the caller still only has a candidate that must reproduce natively)."""
+    t_end = time.time() + deadline_s
+    int_univ = []
+    for vars_, body in univ:
+        if all(v.sort() == I for v in vars_) and len(vars_) <= 2:
+            int_univ.append((vars_, to_z3(body)))
+    for cap in (6, 12):
+        s = z3.Solver()
+        s.set('timeout', timeout_ms)
+        for a in assertions:
+            s.add(a)
+        for t in small:
+            s.add(t <= cap)
+        K = [z3.IntVal(k) for k in range(-1, cap + 2)]
+        m = None
+        for _rnd in range(max_rounds):
+            if time.time() > t_end or s.check() != z3.sat:
+                m = None
+                break
+            m = s.model()
+            added = 0
+            for vars_, bz in int_univ:
+                for combo in itertools.product(K, repeat=len(vars_)):
+                    inst = z3.substitute(bz, *zip(vars_, combo))
+                    if z3.is_false(m.eval(inst, model_completion=True)):
+                        s.add(inst)
+                        added += 1
+                        if added > 4000:
+                            break
+            if not added:
+                return m
+        # sizes capped at `cap` admit no repaired model within the rounds: try larger sizes
+    return None
+
+
+def discharge(ob, timeout_ms=10000, rounds=2, sum_frame=True, small=()):
     """-> dict(status=proved|refuted|undecided, backend, ms, model, why)"""
     t0 = time.time()
     try:
@@ -535,6 +577,13 @@ def discharge(ob, timeout_ms=10000, rounds=2, sum_frame=True):
         assertions = ground + [z3.Not(goal)]
         r = _check(assertions, timeout_ms)
         r['nhyps'] = len(ground)
+        if r['status'] == 'refuted' and r.get('z3model') is not None and univ:
+            try:
+                m2 = refine_model(assertions, univ, r['z3model'], small=small, timeout_ms=timeout_ms)
+            except z3.Z3Exception:
+                m2 = None
+            if m2 is not None:
+                r['z3model'], r['model'], r['model_refined'] = m2, model_dict(m2), True
         results.append(r)
         if r['status'] != 'proved':
             break
